@@ -21,6 +21,10 @@ CHECKS = {
    text="Easter: range 22 March..25 April proved for every integer year in both branches; Julian branch proved Sunday and equal to the tabular Computus for EVERY year (z3); Gregorian branch: periodicity lemma easter(y+5700000)=easter(y) (and the same for the Computus spec and the weekday) proved by z3, plus complete enumeration of the stated domain -4712..10000 (quick) and of one full 5.7-million-year period (thorough) => equality and Sunday for every year. Pesach (years 1..3000) and the Moslem conversions (every date of 1..2500 AH, every civil day 622-07-16..3000-12-31, both directions, round trip) are complete enumerations of the stated finite domains on the real code against independent arithmetic calendars: 1.77 million ground obligations.",
    note="Oracles in /verif/specs (Knuth Computus, Dershowitz-Reingold Hebrew arithmetic anchored on ten published Pesach dates, tabular Islamic calendar epoch JDN 1948440). Seven genuine defects found and repaired (known_findings.json).",
    technique="contract-based deductive verification (AST VCs + z3: range, Julian Computus, periodicity lemma) + exhaustive ground enumeration of the stated finite domains", ref="DESIGN.md §3 C19"),
+ "C03": dict(category="proof",
+   text="reduce_deg is proved (z3) to return a value strictly inside (-360, 360) with the sign of the input and differing from it by exactly 360 k for every real / every integer / every dyadic input up to 1e15; reduce_dms and dms2deg give sign*(|d|+|m|/60+|s|/3600) mod 360 with canonical fields for all pieces (fractional, overflowing, negative); all 15 constructor forms, all 50 operator x operand-type x in-place/reflected combinations and the unary operators/views are verified from the AST of the real methods: result in range, congruent to the real-number result, operands unchanged, result a new object, ZeroDivisionError exactly for a zero divisor. The operators are checked modularly against the reduce_deg contract.",
+   note="R-mode (real arithmetic); pow is uninterpreted; % is asserted on canonical operands (positive divisor, reflected left operand inside (-360,360)) where modulo respects congruence. The binary64 clause (1e-9 scaled, denormals, +-1 ulp at 0 and +-360, |x| up to 1e15) is a bounded stand-in (2e4/1e6 seeded values). Two genuine defects (ra=True not reduced; to_positive() = 360.0) found and repaired.",
+   technique="contract-based deductive verification (AST VCs + z3, modular use of the reduce_deg contract); bounded run-time contracts for binary64", ref="DESIGN.md §3 C03"),
 }
 NA_REASON = "check not built yet (work in progress; DESIGN.md has the plan)"
 
